@@ -23,7 +23,9 @@ RULE = ('number families, each enumerated completely: (digits) every double m x 
         'null, never a non-finite or prefix value); a text is non-trivial when it is in the grammar or accepted. (radix) numberParseInt for '
         'every radix 2..36 on every short string over the digits at the edge of the radix. (memo) every call history a, b, a over a set of '
         'parser / stringNew calls whose texts or values collide when normalised (1, 1.0, true, "1", " 1", -0.0 ...), each call checked '
-        'by its own oracle, so that nothing remembered between calls can go unnoticed; non-trivial when a and b are different calls.')
+        'by its own oracle, so that nothing remembered between calls can go unnoticed; non-trivial when a and b are different calls. '
+        '(grouping) both parsers on every short string over 0 1 9 , . - and over 1 0 apostrophe thin-space NBSP comma: a grouping '
+        'character inside the text makes it not a number; non-trivial when the text has a digit and a grouping character.')
 ASSUMPTIONS = [
     'IEEE-754 binary64 floats; math.ldexp, math.nextafter and struct are exact (used to build doubles and compare bits)',
     "float('<m>e<e>') is only used to *pick* the doubles of the digits family; the oracle never uses float(str)",
@@ -35,6 +37,8 @@ ASSUMPTIONS = [
     'whether they are numbers',
     'the sign of a zero result is compared only for the round trip of -0.0 / 0.0, not for arbitrary zero texts',
     'upper-case letter digits (FF under radix 16) are UNSPECIFIED: null or the exact value',
+    'NBSP / thin space / figure space before or after a number count as white-space padding (UNSPECIFIED); between digits they, the comma and '
+    'the apostrophe make the text not a number (must be null); the underscore stays outside the alphabets as decided',
     'state kept between calls is only looked for inside one process along the enumerated histories (a, b, a) and along the fixed '
     'enumeration order of each shard; every shard runs in a fresh process',
 ]
@@ -618,6 +622,39 @@ def fam_memo(arg):
     return acc.result()
 
 
+# ---------------------------------------------------------------------------------------------------------------------
+# digit grouping characters are not part of a number
+
+
+GROUP_ALPHABET_A = ['0', '1', '9', ',', '.', '-']
+GROUP_ALPHABET_B = ['1', '0', "'", '\u2009', '\u00a0', ',']
+GROUP_LEN = {'quick': (5, 4), 'thorough': (6, 5)}
+GROUP_CALLS = ['float', 'int10', 'int-default']
+
+
+def check_grouping(case, acc):
+    if case['fn'] == 'float':
+        return check_pfloat(case, acc)
+    return check_pint(dict(case, radix=10 if case['fn'] == 'int10' else None), acc)
+
+
+def fam_grouping(arg):
+    _tier, which, prefixes, maxlen, with_short = arg
+    acc = Acc('grouping')
+    alphabet = GROUP_ALPHABET_A if which == 'A' else GROUP_ALPHABET_B
+    for text in shard_texts(alphabet, prefixes, maxlen, with_short):
+        grouped = any(ch in text for ch in ",'\u2009\u00a0")
+        for fn in GROUP_CALLS:
+            acc.cases += 1
+            obs = check_grouping({'text': text, 'fn': fn, 'via': 'script-global' if len(text) == 3 else 'direct'}, acc)
+            acc.outcome((fn,) + tuple(obs[:2]))
+            if grouped and any(ch.isdigit() for ch in text):
+                acc.nontrivial += 1
+        if text in ('1,000', "1'00"):
+            acc.sample({'text': text, 'numberParseFloat': call_parse_float(text, 'direct'), 'numberParseInt': call_parse_int(text, 10, 'direct')})
+    return acc.result()
+
+
 def _prefix_shards(nsym, nshards):
     prefixes = list(itertools.product(range(nsym), repeat=2))
     return split(prefixes, nshards)
@@ -665,9 +702,15 @@ def families(tier):
                f'every history a, b, a over {N_MEMO_CALLS} calls ({len(MEMO_FLOAT_TEXTS)} numberParseFloat texts, {len(MEMO_INT_TEXTS)} numberParseInt texts x '
                f'{len(MEMO_INT_RADIXES)} radix arguments, stringNew of {len(MEMO_VALUES)} values incl. 1 / 1.0 / true / "1"), direct and in scripts',
                expected=N_MEMO_CALLS * N_MEMO_CALLS * 2),
+        Family('grouping', fam_grouping,
+               [(tier, 'A', p, GROUP_LEN[tier][0], i == 0) for i, p in enumerate(_prefix_shards(6, 12))]
+               + [(tier, 'B', p, GROUP_LEN[tier][1], i == 0) for i, p in enumerate(_prefix_shards(6, 6))],
+               f'numberParseFloat, numberParseInt radix 10 and default radix on every string of length <= {GROUP_LEN[tier][0]} over 0 1 9 , . - and of '
+               f"length <= {GROUP_LEN[tier][1]} over 1 0 ' U+2009 U+00A0 , (text with a grouping character inside is not a number: null)",
+               expected=(_nstrings(6, GROUP_LEN[tier][0]) + _nstrings(6, GROUP_LEN[tier][1])) * 3),
     ]
     # the self-contained call histories first (their violations replay on their own)
-    return fams[-2:] + fams[:-2]
+    return fams[-3:-1] + fams[:-3] + fams[-1:]
 
 
 def _replay_number(case, acc):
@@ -675,7 +718,7 @@ def _replay_number(case, acc):
 
 
 _CHECKS = {'digits': _replay_number, 'pow2': _replay_number, 'bits': _replay_number, 'ints': _replay_number,
-           'pfloat': check_pfloat, 'pint': check_pint, 'pscript': check_pscript, 'radix': check_pint, 'memo': check_memo}
+           'pfloat': check_pfloat, 'pint': check_pint, 'pscript': check_pscript, 'radix': check_pint, 'memo': check_memo, 'grouping': check_grouping}
 
 
 def replay(family, case):
